@@ -85,7 +85,7 @@ class P(Prop):
                 out.append({"stream": "basic", "rated": rated, "curve": gen_curve(rng, clampy=rng.random() < 0.25),
                             "qs": queries(rng, rated), "from_file": rng.random() < 0.2})
             elif u < 0.6:
-                ns = rng.choice([2, 2, 3])
+                ns = rng.choice([2, 3, 3])
                 equal = rng.random() < 0.4
                 stages = []
                 for i in range(ns):
